@@ -190,7 +190,7 @@ def pinned_sym(db, g, expr, left, right):
 
 
 # ---------------------------------------------------------------------------------------------------
-@rule("R-OUTLEN", 14, "every string iterator's next() reports the length on every path and advances its cursor on every path")
+@rule("R-OUTLEN", 13, "every string iterator's next() reports the length on every path and advances its cursor on every path")
 def r_outlen(db, rep):
     for base, k in iterator_classes(db):
         if base != "IteratorDictString":
